@@ -58,6 +58,9 @@ type lockState struct {
 	writer  *Thread
 	readers map[*Thread]int
 	vc      VC
+	// goroutines that have called Lock on an RWMutex and wait for its readers to leave: sync.RWMutex makes every
+	// later RLock wait behind them (which is why recursive read locking deadlocks as soon as a writer arrives)
+	waitingW map[*Thread]bool
 }
 
 type access struct {
@@ -341,7 +344,17 @@ func installThreads(m *Machine) {
 		if ls.writer == me {
 			panic(targetPanic{Str("self-deadlock: Lock of a mutex already held by this goroutine in " + r.where(fr))})
 		}
-		r.yield(func() bool { return ls.writer == nil && len(ls.readers) == 0 })
+		r.yield(func() bool {
+			ok := ls.writer == nil && len(ls.readers) == 0
+			if !ok && len(ls.readers) > 0 {
+				if ls.waitingW == nil {
+					ls.waitingW = map[*Thread]bool{}
+				}
+				ls.waitingW[me] = true
+			}
+			return ok
+		})
+		delete(ls.waitingW, me)
 		ls.writer = r.Sch.cur
 		r.Sch.cur.vc = r.Sch.cur.vc.join(ls.vc)
 		return nil
@@ -363,7 +376,7 @@ func installThreads(m *Machine) {
 	I["(*sync.RWMutex).Unlock"] = unlock
 	I["(*sync.RWMutex).RLock"] = func(r *Run, fr *Frame, a []Value) Value {
 		_, ls := r.lockOf(a[0])
-		r.yield(func() bool { return ls.writer == nil })
+		r.yield(func() bool { return ls.writer == nil && len(ls.waitingW) == 0 })
 		ls.readers[r.Sch.cur]++
 		r.Sch.cur.vc = r.Sch.cur.vc.join(ls.vc)
 		return nil
